@@ -8,6 +8,8 @@
         uninterp spec fn spec_dec(b: Seq<u8>) -> Option<(SetTimeAndDate, int)>;
         open spec fn progresses() -> bool { false }
         open spec fn self_delimiting() -> bool { false }
+        open spec fn dec_rel(b: Seq<u8>, v: &SetTimeAndDate, k: int) -> bool { true }
+        open spec fn dec_total() -> bool { false }
         /// the tag loop is specified by totality and frame clauses only
         open spec fn functional() -> bool { false }
         //@ fn exp:zvt | impl zvt_builder::encoding::Encoding<SetTimeAndDate> for zvt_builder::encoding::Default | encode | mod=packets props=C03
@@ -44,6 +46,8 @@
         uninterp spec fn spec_dec(b: Seq<u8>) -> Option<(NumAndTotal, int)>;
         open spec fn progresses() -> bool { false }
         open spec fn self_delimiting() -> bool { false }
+        open spec fn dec_rel(b: Seq<u8>, v: &NumAndTotal, k: int) -> bool { true }
+        open spec fn dec_total() -> bool { false }
         /// the tag loop is specified by totality and frame clauses only
         open spec fn functional() -> bool { false }
         //@ fn exp:zvt | impl zvt_builder::encoding::Encoding<NumAndTotal> for zvt_builder::encoding::Default | encode | mod=packets props=C03
@@ -73,6 +77,8 @@
         uninterp spec fn spec_dec(b: Seq<u8>) -> Option<(SingleAmounts, int)>;
         open spec fn progresses() -> bool { false }
         open spec fn self_delimiting() -> bool { false }
+        open spec fn dec_rel(b: Seq<u8>, v: &SingleAmounts, k: int) -> bool { true }
+        open spec fn dec_total() -> bool { false }
         /// the tag loop is specified by totality and frame clauses only
         open spec fn functional() -> bool { false }
         //@ fn exp:zvt | impl zvt_builder::encoding::Encoding<SingleAmounts> for zvt_builder::encoding::Default | encode | mod=packets props=C03
@@ -102,6 +108,8 @@
         uninterp spec fn spec_dec(b: Seq<u8>) -> Option<(StatusInformation, int)>;
         open spec fn progresses() -> bool { false }
         open spec fn self_delimiting() -> bool { false }
+        open spec fn dec_rel(b: Seq<u8>, v: &StatusInformation, k: int) -> bool { true }
+        open spec fn dec_total() -> bool { false }
         /// the tag loop is specified by totality and frame clauses only
         open spec fn functional() -> bool { false }
         //@ fn exp:zvt | impl zvt_builder::encoding::Encoding<StatusInformation> for zvt_builder::encoding::Default | encode | mod=packets props=C03
@@ -138,6 +146,8 @@
         uninterp spec fn spec_dec(b: Seq<u8>) -> Option<(IntermediateStatusInformation, int)>;
         open spec fn progresses() -> bool { false }
         open spec fn self_delimiting() -> bool { false }
+        open spec fn dec_rel(b: Seq<u8>, v: &IntermediateStatusInformation, k: int) -> bool { true }
+        open spec fn dec_total() -> bool { false }
         /// the tag loop is specified by totality and frame clauses only
         open spec fn functional() -> bool { false }
         //@ fn exp:zvt | impl zvt_builder::encoding::Encoding<IntermediateStatusInformation> for zvt_builder::encoding::Default | encode | mod=packets props=C03
@@ -174,6 +184,8 @@
         uninterp spec fn spec_dec(b: Seq<u8>) -> Option<(StatusEnquiry, int)>;
         open spec fn progresses() -> bool { false }
         open spec fn self_delimiting() -> bool { false }
+        open spec fn dec_rel(b: Seq<u8>, v: &StatusEnquiry, k: int) -> bool { true }
+        open spec fn dec_total() -> bool { false }
         /// the tag loop is specified by totality and frame clauses only
         open spec fn functional() -> bool { false }
         //@ fn exp:zvt | impl zvt_builder::encoding::Encoding<StatusEnquiry> for zvt_builder::encoding::Default | encode | mod=packets props=C03
@@ -210,6 +222,8 @@
         uninterp spec fn spec_dec(b: Seq<u8>) -> Option<(Registration, int)>;
         open spec fn progresses() -> bool { false }
         open spec fn self_delimiting() -> bool { false }
+        open spec fn dec_rel(b: Seq<u8>, v: &Registration, k: int) -> bool { true }
+        open spec fn dec_total() -> bool { false }
         /// the tag loop is specified by totality and frame clauses only
         open spec fn functional() -> bool { false }
         //@ fn exp:zvt | impl zvt_builder::encoding::Encoding<Registration> for zvt_builder::encoding::Default | encode | mod=packets props=C03
@@ -246,6 +260,8 @@
         uninterp spec fn spec_dec(b: Seq<u8>) -> Option<(CompletionData, int)>;
         open spec fn progresses() -> bool { false }
         open spec fn self_delimiting() -> bool { false }
+        open spec fn dec_rel(b: Seq<u8>, v: &CompletionData, k: int) -> bool { true }
+        open spec fn dec_total() -> bool { false }
         /// the tag loop is specified by totality and frame clauses only
         open spec fn functional() -> bool { false }
         //@ fn exp:zvt | impl zvt_builder::encoding::Encoding<CompletionData> for zvt_builder::encoding::Default | encode | mod=packets props=C03
@@ -282,6 +298,8 @@
         uninterp spec fn spec_dec(b: Seq<u8>) -> Option<(ReceiptPrintoutCompletion, int)>;
         open spec fn progresses() -> bool { false }
         open spec fn self_delimiting() -> bool { false }
+        open spec fn dec_rel(b: Seq<u8>, v: &ReceiptPrintoutCompletion, k: int) -> bool { true }
+        open spec fn dec_total() -> bool { false }
         /// the tag loop is specified by totality and frame clauses only
         open spec fn functional() -> bool { false }
         //@ fn exp:zvt | impl zvt_builder::encoding::Encoding<ReceiptPrintoutCompletion> for zvt_builder::encoding::Default | encode | mod=packets props=C03
@@ -318,6 +336,8 @@
         uninterp spec fn spec_dec(b: Seq<u8>) -> Option<(ResetTerminal, int)>;
         open spec fn progresses() -> bool { false }
         open spec fn self_delimiting() -> bool { false }
+        open spec fn dec_rel(b: Seq<u8>, v: &ResetTerminal, k: int) -> bool { true }
+        open spec fn dec_total() -> bool { false }
         /// the tag loop is specified by totality and frame clauses only
         open spec fn functional() -> bool { false }
         //@ fn exp:zvt | impl zvt_builder::encoding::Encoding<ResetTerminal> for zvt_builder::encoding::Default | encode | mod=packets props=C03
@@ -354,6 +374,8 @@
         uninterp spec fn spec_dec(b: Seq<u8>) -> Option<(PrintSystemConfiguration, int)>;
         open spec fn progresses() -> bool { false }
         open spec fn self_delimiting() -> bool { false }
+        open spec fn dec_rel(b: Seq<u8>, v: &PrintSystemConfiguration, k: int) -> bool { true }
+        open spec fn dec_total() -> bool { false }
         /// the tag loop is specified by totality and frame clauses only
         open spec fn functional() -> bool { false }
         //@ fn exp:zvt | impl zvt_builder::encoding::Encoding<PrintSystemConfiguration> for zvt_builder::encoding::Default | encode | mod=packets props=C03
@@ -390,6 +412,8 @@
         uninterp spec fn spec_dec(b: Seq<u8>) -> Option<(SetTerminalId, int)>;
         open spec fn progresses() -> bool { false }
         open spec fn self_delimiting() -> bool { false }
+        open spec fn dec_rel(b: Seq<u8>, v: &SetTerminalId, k: int) -> bool { true }
+        open spec fn dec_total() -> bool { false }
         /// the tag loop is specified by totality and frame clauses only
         open spec fn functional() -> bool { false }
         //@ fn exp:zvt | impl zvt_builder::encoding::Encoding<SetTerminalId> for zvt_builder::encoding::Default | encode | mod=packets props=C03
@@ -426,6 +450,8 @@
         uninterp spec fn spec_dec(b: Seq<u8>) -> Option<(Abort, int)>;
         open spec fn progresses() -> bool { false }
         open spec fn self_delimiting() -> bool { false }
+        open spec fn dec_rel(b: Seq<u8>, v: &Abort, k: int) -> bool { true }
+        open spec fn dec_total() -> bool { false }
         /// the tag loop is specified by totality and frame clauses only
         open spec fn functional() -> bool { false }
         //@ fn exp:zvt | impl zvt_builder::encoding::Encoding<Abort> for zvt_builder::encoding::Default | encode | mod=packets props=C03
@@ -462,6 +488,8 @@
         uninterp spec fn spec_dec(b: Seq<u8>) -> Option<(ReservationAbort, int)>;
         open spec fn progresses() -> bool { false }
         open spec fn self_delimiting() -> bool { false }
+        open spec fn dec_rel(b: Seq<u8>, v: &ReservationAbort, k: int) -> bool { true }
+        open spec fn dec_total() -> bool { false }
         /// the tag loop is specified by totality and frame clauses only
         open spec fn functional() -> bool { false }
         //@ fn exp:zvt | impl zvt_builder::encoding::Encoding<ReservationAbort> for zvt_builder::encoding::Default | encode | mod=packets props=C03
@@ -498,6 +526,8 @@
         uninterp spec fn spec_dec(b: Seq<u8>) -> Option<(PartialReversalAbort, int)>;
         open spec fn progresses() -> bool { false }
         open spec fn self_delimiting() -> bool { false }
+        open spec fn dec_rel(b: Seq<u8>, v: &PartialReversalAbort, k: int) -> bool { true }
+        open spec fn dec_total() -> bool { false }
         /// the tag loop is specified by totality and frame clauses only
         open spec fn functional() -> bool { false }
         //@ fn exp:zvt | impl zvt_builder::encoding::Encoding<PartialReversalAbort> for zvt_builder::encoding::Default | encode | mod=packets props=C03
@@ -534,6 +564,8 @@
         uninterp spec fn spec_dec(b: Seq<u8>) -> Option<(Authorization, int)>;
         open spec fn progresses() -> bool { false }
         open spec fn self_delimiting() -> bool { false }
+        open spec fn dec_rel(b: Seq<u8>, v: &Authorization, k: int) -> bool { true }
+        open spec fn dec_total() -> bool { false }
         /// the tag loop is specified by totality and frame clauses only
         open spec fn functional() -> bool { false }
         //@ fn exp:zvt | impl zvt_builder::encoding::Encoding<Authorization> for zvt_builder::encoding::Default | encode | mod=packets props=C03
@@ -570,6 +602,8 @@
         uninterp spec fn spec_dec(b: Seq<u8>) -> Option<(Reservation, int)>;
         open spec fn progresses() -> bool { false }
         open spec fn self_delimiting() -> bool { false }
+        open spec fn dec_rel(b: Seq<u8>, v: &Reservation, k: int) -> bool { true }
+        open spec fn dec_total() -> bool { false }
         /// the tag loop is specified by totality and frame clauses only
         open spec fn functional() -> bool { false }
         //@ fn exp:zvt | impl zvt_builder::encoding::Encoding<Reservation> for zvt_builder::encoding::Default | encode | mod=packets props=C03
@@ -606,6 +640,8 @@
         uninterp spec fn spec_dec(b: Seq<u8>) -> Option<(PartialReversal, int)>;
         open spec fn progresses() -> bool { false }
         open spec fn self_delimiting() -> bool { false }
+        open spec fn dec_rel(b: Seq<u8>, v: &PartialReversal, k: int) -> bool { true }
+        open spec fn dec_total() -> bool { false }
         /// the tag loop is specified by totality and frame clauses only
         open spec fn functional() -> bool { false }
         //@ fn exp:zvt | impl zvt_builder::encoding::Encoding<PartialReversal> for zvt_builder::encoding::Default | encode | mod=packets props=C03
@@ -642,6 +678,8 @@
         uninterp spec fn spec_dec(b: Seq<u8>) -> Option<(PreAuthReversal, int)>;
         open spec fn progresses() -> bool { false }
         open spec fn self_delimiting() -> bool { false }
+        open spec fn dec_rel(b: Seq<u8>, v: &PreAuthReversal, k: int) -> bool { true }
+        open spec fn dec_total() -> bool { false }
         /// the tag loop is specified by totality and frame clauses only
         open spec fn functional() -> bool { false }
         //@ fn exp:zvt | impl zvt_builder::encoding::Encoding<PreAuthReversal> for zvt_builder::encoding::Default | encode | mod=packets props=C03
@@ -678,6 +716,8 @@
         uninterp spec fn spec_dec(b: Seq<u8>) -> Option<(EndOfDay, int)>;
         open spec fn progresses() -> bool { false }
         open spec fn self_delimiting() -> bool { false }
+        open spec fn dec_rel(b: Seq<u8>, v: &EndOfDay, k: int) -> bool { true }
+        open spec fn dec_total() -> bool { false }
         /// the tag loop is specified by totality and frame clauses only
         open spec fn functional() -> bool { false }
         //@ fn exp:zvt | impl zvt_builder::encoding::Encoding<EndOfDay> for zvt_builder::encoding::Default | encode | mod=packets props=C03
@@ -714,6 +754,8 @@
         uninterp spec fn spec_dec(b: Seq<u8>) -> Option<(Diagnosis, int)>;
         open spec fn progresses() -> bool { false }
         open spec fn self_delimiting() -> bool { false }
+        open spec fn dec_rel(b: Seq<u8>, v: &Diagnosis, k: int) -> bool { true }
+        open spec fn dec_total() -> bool { false }
         /// the tag loop is specified by totality and frame clauses only
         open spec fn functional() -> bool { false }
         //@ fn exp:zvt | impl zvt_builder::encoding::Encoding<Diagnosis> for zvt_builder::encoding::Default | encode | mod=packets props=C03
@@ -750,6 +792,8 @@
         uninterp spec fn spec_dec(b: Seq<u8>) -> Option<(Initialization, int)>;
         open spec fn progresses() -> bool { false }
         open spec fn self_delimiting() -> bool { false }
+        open spec fn dec_rel(b: Seq<u8>, v: &Initialization, k: int) -> bool { true }
+        open spec fn dec_total() -> bool { false }
         /// the tag loop is specified by totality and frame clauses only
         open spec fn functional() -> bool { false }
         //@ fn exp:zvt | impl zvt_builder::encoding::Encoding<Initialization> for zvt_builder::encoding::Default | encode | mod=packets props=C03
@@ -786,6 +830,8 @@
         uninterp spec fn spec_dec(b: Seq<u8>) -> Option<(ReadCard, int)>;
         open spec fn progresses() -> bool { false }
         open spec fn self_delimiting() -> bool { false }
+        open spec fn dec_rel(b: Seq<u8>, v: &ReadCard, k: int) -> bool { true }
+        open spec fn dec_total() -> bool { false }
         /// the tag loop is specified by totality and frame clauses only
         open spec fn functional() -> bool { false }
         //@ fn exp:zvt | impl zvt_builder::encoding::Encoding<ReadCard> for zvt_builder::encoding::Default | encode | mod=packets props=C03
@@ -822,6 +868,8 @@
         uninterp spec fn spec_dec(b: Seq<u8>) -> Option<(PrintLine, int)>;
         open spec fn progresses() -> bool { false }
         open spec fn self_delimiting() -> bool { false }
+        open spec fn dec_rel(b: Seq<u8>, v: &PrintLine, k: int) -> bool { true }
+        open spec fn dec_total() -> bool { false }
         /// the tag loop is specified by totality and frame clauses only
         open spec fn functional() -> bool { false }
         //@ fn exp:zvt | impl zvt_builder::encoding::Encoding<PrintLine> for zvt_builder::encoding::Default | encode | mod=packets props=C03
@@ -858,6 +906,8 @@
         uninterp spec fn spec_dec(b: Seq<u8>) -> Option<(PrintTextBlock, int)>;
         open spec fn progresses() -> bool { false }
         open spec fn self_delimiting() -> bool { false }
+        open spec fn dec_rel(b: Seq<u8>, v: &PrintTextBlock, k: int) -> bool { true }
+        open spec fn dec_total() -> bool { false }
         /// the tag loop is specified by totality and frame clauses only
         open spec fn functional() -> bool { false }
         //@ fn exp:zvt | impl zvt_builder::encoding::Encoding<PrintTextBlock> for zvt_builder::encoding::Default | encode | mod=packets props=C03
@@ -894,6 +944,8 @@
         uninterp spec fn spec_dec(b: Seq<u8>) -> Option<(SelectLanguage, int)>;
         open spec fn progresses() -> bool { false }
         open spec fn self_delimiting() -> bool { false }
+        open spec fn dec_rel(b: Seq<u8>, v: &SelectLanguage, k: int) -> bool { true }
+        open spec fn dec_total() -> bool { false }
         /// the tag loop is specified by totality and frame clauses only
         open spec fn functional() -> bool { false }
         //@ fn exp:zvt | impl zvt_builder::encoding::Encoding<SelectLanguage> for zvt_builder::encoding::Default | encode | mod=packets props=C03
@@ -930,6 +982,8 @@
         uninterp spec fn spec_dec(b: Seq<u8>) -> Option<(Ack, int)>;
         open spec fn progresses() -> bool { false }
         open spec fn self_delimiting() -> bool { false }
+        open spec fn dec_rel(b: Seq<u8>, v: &Ack, k: int) -> bool { true }
+        open spec fn dec_total() -> bool { false }
         /// the tag loop is specified by totality and frame clauses only
         open spec fn functional() -> bool { false }
         //@ fn exp:zvt | impl zvt_builder::encoding::Encoding<Ack> for zvt_builder::encoding::Default | encode | mod=packets props=C03
